@@ -306,6 +306,16 @@ def run(ctx):
                         o.violated(fn, rm if claim != c else te, f"tested pairs come from `{tset}` and claimed pairs from `{claim}`; both must be all pairs of the accepted clique `{c}`")
                     else:
                         o.undecided("test/claim sets not recognised", fn, rm)
+                    # the scan over the pairs may only stop early once a claimed pair has been FOUND: an exit that every iteration
+                    # takes (a `break` / `return` that is a plain statement of the scan loop's body) tests the first pair only
+                    if tl and tl[0] is not accept:
+                        for bx in [x for x in tl[0].body if isinstance(x, (ast.Break, ast.Return))]:
+                            o.violated(fn, bx, f"the scan over the pairs of `{c}` leaves after its first iteration (`{txt(bx)}` is unconditional in the loop body): only one pair is tested, "
+                                               "a clique that shares a later pair with an accepted clique is accepted too and the shared edge is relabelled", shape_free=True)
+                        for bx in [x for x in ast.walk(tl[0]) if isinstance(x, ast.Break) and not any(x is y for y in tl[0].body)]:
+                            conds_ = rules.path_conditions(par, bx, upto=tl[0])
+                            if conds_ and not any(any(z is te for z in ast.walk(t_)) for t_, _ in conds_):
+                                o.undecided(f"the scan over the pairs stops under `{txt(conds_[0][0])}`, which is not the unclaimed-test", fn, bx)
                     # guards: append and remove only when no tested pair is missing
                     skip_flags = [s for s in ast.walk(accept) if isinstance(s, ast.Assign) and isinstance(s.value, ast.Constant) and s.value.value is True]
                     flag_names = {txt(f_.targets[0]) for f_ in skip_flags}
